@@ -18,6 +18,14 @@ from drive_matrix import run_jobs
 def run(ctx):
     rng, q = ctx.rng, ctx.quick
     r = ctx.mc('mc/MC_Ref.tla', 'mc/MC_Ref_quick.cfg' if q else 'mc/MC_Ref_thorough.cfg', 'reference layer (signs used by the homomorphism clause)')
+    r2 = ctx.mc('mc/MC_Matrix.tla', 'mc/MC_Matrix_quick3.cfg' if q else 'mc/MC_Matrix_thorough.cfg',
+                'MatrixModel: the transcribed Kronecker construction of matrix_rep is a faithful representation (homomorphism on all blade pairs, identity, first column) for every signature ordering d <= ' + ('3' if q else '4'))
+    if not r2['ok']:
+        ctx.report(f"MatrixModel violates {r2['violated']}", {'kind': 'spec', 'violated': ','.join(r2['violated'])}, {'tail': r2['out'][-2000:]})
+    rc = ctx.mc('mc/MC_Matrix.tla', 'mc/MC_Matrix_control.cfg', 'control: representing negative generators like positive ones must be refuted')
+    if not rc['violated']:
+        from tlc import MachineryError
+        raise MachineryError('control run of MatrixModel did not find a counterexample')
     us = []
     for d in (0, 1, 2, 3):
         us += [ucfg(sig=s) for s in P.all_sigs(d)]
